@@ -336,6 +336,9 @@ def startExisting (p : Params) (s : S) : S :=
   else
     let s0 := { s with pendingExisting := false }
     if s0.st = .success then s0            -- MistralError escapes run_task: rolled back
+    -- repo_patches/20: the request is not a rerun (resume queued it for an IDLE task); a task that
+    -- has completed in the meantime (failed by its timeout / by the other start request) is left alone
+    else if isCompleted s0.st then s0
     else if s0.st = .running ∧ hasOutstanding s0.acts then s0   -- 258aaaae: already running its action
     else
       let s1 := setRunningExisting s0
